@@ -30,6 +30,9 @@ type Machine[I any] struct {
 	Key func(in I) string
 	// NonTrivial optionally classifies the transition (called after Apply with check=true).
 	MaxStates int
+	// MaxDepth, when positive, bounds the history length: states at that depth are checked but not
+	// expanded, and the search then counts as complete for "all histories up to MaxDepth".
+	MaxDepth int
 }
 
 type bfsStats struct {
@@ -167,6 +170,9 @@ func BFS[I any](c *Ctx, m *Machine[I]) bfsStats {
 		frontier = next
 		if len(next) > 0 {
 			depth++
+		}
+		if m.MaxDepth > 0 && depth >= m.MaxDepth {
+			break // every history of length <= MaxDepth has been executed
 		}
 	}
 	st.MaxDepth = depth
